@@ -36,6 +36,38 @@ func nlGen(g *G, tier string) []M {
 			op["alloc"] = true
 		}
 	}
+	// a fifth of the merging operations on operands some of whose absent collections are written
+	// out as empty ones (allocated, length 0): to every operation an empty collection is no value
+	for _, op := range ops {
+		switch asStr(op["op"]) {
+		case "union", "intersect", "add", "union3", "relateList":
+		default:
+			continue
+		}
+		if !g2.Chance(0.2) {
+			continue
+		}
+		for _, k := range []string{"a", "b", "c"} {
+			l, _ := op[k].(M)
+			if l == nil {
+				continue
+			}
+			for _, n := range asList(l["nodes"]) {
+				at, _ := n.(M)["a"].(M)
+				if at == nil {
+					continue
+				}
+				for _, f := range NodeAttrs {
+					switch f.Kind {
+					case "strs", "enums", "imap", "persons", "refs":
+						if _, has := at[f.GoName]; !has && g2.Chance(0.4) {
+							at[f.GoName] = []any{}
+						}
+					}
+				}
+			}
+		}
+	}
 	return ops
 }
 
@@ -125,6 +157,26 @@ func nlGen0(g *G, tier string) []M {
 		case 18:
 			ops = append(ops, M{"op": "cleanEdges", "a": a})
 		case 19:
+			if g.Chance(0.3) {
+				// three to five nodes that all agree with the probe on the hash; the purl decides, and
+				// its carriers stand anywhere in the list
+				val := g.Pick([]string{"aa", "AA", "bb"})
+				k := 3 + g.Int(3)
+				nodes := []any{}
+				for i := 0; i < k; i++ {
+					at := M{"Hashes": []any{[]any{1.0, val}}}
+					if g.Chance(0.5) {
+						at["Identifiers"] = []any{[]any{1.0, g.Pick(purlPool[:2])}}
+					}
+					nodes = append(nodes, M{"id": fmtID(i), "type": 0.0, "a": at})
+				}
+				probe := M{"id": "probe", "type": 0.0, "a": M{"Hashes": []any{[]any{1.0, val}}, "Identifiers": []any{[]any{1.0, purlPool[0]}}}}
+				if g.Chance(0.2) {
+					delete(probe["a"].(M), "Identifiers")
+				}
+				ops = append(ops, M{"op": "match", "a": M{"nodes": shuffleAny(g, nodes), "edges": []any{}, "roots": []any{}}, "n": probe})
+				break
+			}
 			ops = append(ops, M{"op": "match", "a": g.matchList(), "n": g.matchNode("probe")})
 		}
 	}
@@ -139,7 +191,7 @@ func (g *G) matchNode(id string) M {
 		h := []any{}
 		for _, k := range []int{1, 2, 3} {
 			if g.Chance(0.45) {
-				h = append(h, []any{float64(k), g.Pick([]string{"aa", "bb", ""})})
+				h = append(h, []any{float64(k), g.Pick([]string{"aa", "bb", "", "AA"})})
 			}
 		}
 		if len(h) > 0 {
